@@ -12,6 +12,7 @@ CONSTANTS
   CondVals = {"absent", "int", "str", "numstr", "bool", "float", "nan", "null", "list", "intlist", "emptylist", "mixedlist", "badregex", "emptystr"}
   CondTypes = {"absent", "string", "int", "float", "bool"}
   RuleKinds = {"int", "dur", "float", "list"}
+  CondScopes = {"span", "trace"}
   Faithful = FALSE
 INVARIANTS TypeOK Answered OnlyListed
 PROPERTY Evaluated
